@@ -386,7 +386,9 @@ func checkC13(c *Ctx, w *World) {
 	// the element is available is the top AVAILABLE endpoint, the other one the top endpoint
 	isElem := isVal(elem)
 	if len(accs) == 2 {
-		cs0 := newCondSpace(m.muc, recOf(eqAtom("elAvailable", statusOf(isElem), constIs(m.available))), "elAvailable")
+		st0 := []atomDef{eqAtom("elAvailable", statusOf(isElem), constIs(m.available)), eqAtom("elUnavailable", statusOf(isElem), constIs(m.unavailable)), eqAtom("elRecovering", statusOf(isElem), constIs(m.recovering))}
+		cs0 := newCondSpace(m.muc, recOf(st0...), atomNames(st0...)...)
+		cs0.ExactlyOne("elAvailable", "elUnavailable", "elRecovering") // closed status domain (C13.status): "neither unavailable nor recovering" is "available"
 		onlyAvail := func(ph *ssa.Phi) bool {
 			q := ph
 			for _, e := range ph.Edges {
